@@ -106,6 +106,181 @@ def mutable_globals(module):
     return out
 
 
+def param_deps(fn):
+    """Flow-insensitive dependence of every local name on the parameters: data dependence through
+    assignments (resolved transitively) and control dependence on the tests that guard an
+    assignment.  A name that is neither a parameter nor a local (module constant, builtin,
+    imported function) contributes nothing; calls depend on their arguments.  Returns
+    name -> set(parameter names | '<state>')."""
+    params = set(fn.params)
+    raw = {}
+
+    def names_of(expr):
+        return {n.id for n in ast.walk(expr) if isinstance(n, ast.Name)
+                and isinstance(n.ctx, ast.Load)}
+
+    def targets(t, acc):
+        if isinstance(t, ast.Name):
+            acc.append(t.id)
+        elif isinstance(t, (ast.Tuple, ast.List)):
+            for e in t.elts:
+                targets(e, acc)
+        elif isinstance(t, ast.Starred):
+            targets(t.value, acc)
+        elif isinstance(t, (ast.Subscript, ast.Attribute)):
+            base = t
+            while isinstance(base, (ast.Subscript, ast.Attribute)):
+                base = base.value
+            if isinstance(base, ast.Name):
+                acc.append(base.id)       # x[i] = v: x now also depends on v (and i)
+
+    def walk(stmts, ctrl):
+        for st in stmts:
+            if isinstance(st, (ast.FunctionDef, ast.AsyncFunctionDef, ast.ClassDef)):
+                continue
+            if isinstance(st, ast.Assign):
+                acc = []
+                for t in st.targets:
+                    targets(t, acc)
+                    if isinstance(t, ast.Subscript):
+                        ctrl_t = names_of(t.slice)
+                    else:
+                        ctrl_t = set()
+                    for nm in acc:
+                        raw.setdefault(nm, set()).update(names_of(st.value) | ctrl | ctrl_t)
+            elif isinstance(st, (ast.AugAssign, ast.AnnAssign)):
+                acc = []
+                targets(st.target, acc)
+                for nm in acc:
+                    raw.setdefault(nm, set()).update(
+                        (names_of(st.value) if st.value is not None else set()) | ctrl | {nm})
+            elif isinstance(st, (ast.If, ast.While)):
+                c2 = ctrl | names_of(st.test)
+                walk(st.body, c2)
+                walk(st.orelse, c2)
+                # an early exit under this test makes everything after it control dependent
+                if any(isinstance(n, (ast.Return, ast.Raise, ast.Break, ast.Continue))
+                       for b in st.body + st.orelse for n in ast.walk(b)):
+                    ctrl = c2
+            elif isinstance(st, (ast.For, ast.AsyncFor)):
+                acc = []
+                targets(st.target, acc)
+                c2 = ctrl | names_of(st.iter)
+                for nm in acc:
+                    raw.setdefault(nm, set()).update(c2)
+                walk(st.body, c2)
+                walk(st.orelse, c2)
+            elif isinstance(st, (ast.With, ast.AsyncWith)):
+                for item in st.items:
+                    if item.optional_vars is not None:
+                        acc = []
+                        targets(item.optional_vars, acc)
+                        for nm in acc:
+                            raw.setdefault(nm, set()).update(names_of(item.context_expr) | ctrl)
+                walk(st.body, ctrl)
+            elif isinstance(st, ast.Try):
+                # what the handlers assign depends on whether the body raised: on all it reads
+                body_names = set()
+                for b in st.body:
+                    body_names |= names_of(b)
+                walk(st.body, ctrl)
+                for h in st.handlers:
+                    walk(h.body, ctrl | body_names)
+                walk(st.orelse, ctrl | body_names)
+                walk(st.finalbody, ctrl)
+                if st.handlers:
+                    ctrl = ctrl | body_names
+            elif hasattr(ast, 'Match') and isinstance(st, ast.Match):
+                c2 = ctrl | names_of(st.subject)
+                for case in st.cases:
+                    for n in ast.walk(case.pattern):
+                        nm = getattr(n, 'name', None)
+                        if isinstance(nm, str):
+                            raw.setdefault(nm, set()).update(c2)
+                    walk(case.body, c2)
+            else:
+                # walrus targets and in-place method calls inside expressions
+                for n in ast.walk(st):
+                    if isinstance(n, ast.NamedExpr):
+                        raw.setdefault(n.target.id, set()).update(names_of(n.value) | ctrl)
+                    elif isinstance(n, ast.Call) and isinstance(n.func, ast.Attribute) and \
+                            n.func.attr in IN_PLACE_METHODS:
+                        base = n.func.value
+                        while isinstance(base, (ast.Subscript, ast.Attribute)):
+                            base = base.value
+                        if isinstance(base, ast.Name):
+                            for a in list(n.args) + [k.value for k in n.keywords]:
+                                raw.setdefault(base.id, set()).update(names_of(a) | ctrl)
+    walk(fn.node.body, set())
+    # walrus inside tests / values of compound statements
+    for n in ast.walk(fn.node):
+        if isinstance(n, ast.NamedExpr):
+            raw.setdefault(n.target.id, set()).update(names_of(n.value))
+    deps = {p: {p} for p in params}
+    for nm in raw:
+        deps.setdefault(nm, set())
+    changed = True
+    while changed:
+        changed = False
+        for nm, srcs in raw.items():
+            new = set(deps[nm])
+            for s_ in srcs:
+                if s_ in deps:
+                    new |= deps[s_]
+            if new != deps[nm]:
+                deps[nm] = new
+                changed = True
+    return deps
+
+
+def expr_deps(expr, deps):
+    out = set()
+    for n in ast.walk(expr):
+        if isinstance(n, ast.Name) and isinstance(n.ctx, ast.Load) and n.id in deps:
+            out |= deps[n.id]
+    return out
+
+
+def mutated_default_params(fn):
+    """Parameters whose default is a mutable container that the function body updates in place."""
+    a = fn.node.args
+    pos = list(a.posonlyargs) + list(a.args)
+    pairs = list(zip(pos[len(pos) - len(a.defaults):], a.defaults)) + \
+        [(k, d) for k, d in zip(a.kwonlyargs, a.kw_defaults) if d is not None]
+    cand = set()
+    for arg, d in pairs:
+        if isinstance(d, (ast.Dict, ast.List, ast.Set, ast.ListComp, ast.DictComp, ast.SetComp)):
+            cand.add(arg.arg)
+        elif isinstance(d, ast.Call):
+            f = d.func
+            fname = f.id if isinstance(f, ast.Name) else (f.attr if isinstance(f, ast.Attribute)
+                                                          else '')
+            if fname in MUTABLE_CTORS:
+                cand.add(arg.arg)
+    if not cand:
+        return set()
+    out = set()
+    for node in ast.walk(fn.node):
+        tgt = None
+        if isinstance(node, (ast.Assign, ast.AugAssign, ast.AnnAssign, ast.Delete)):
+            tgts = node.targets if isinstance(node, (ast.Assign, ast.Delete)) else [node.target]
+            for t in tgts:
+                base = t
+                while isinstance(base, (ast.Subscript, ast.Attribute)):
+                    base = base.value
+                if isinstance(base, ast.Name) and base.id in cand and (
+                        base is not t or isinstance(node, ast.AugAssign)):
+                    out.add(base.id)
+        elif isinstance(node, ast.Call) and isinstance(node.func, ast.Attribute) and \
+                node.func.attr in IN_PLACE_METHODS:
+            base = node.func.value
+            while isinstance(base, (ast.Subscript, ast.Attribute)):
+                base = base.value
+            if isinstance(base, ast.Name) and base.id in cand:
+                out.add(base.id)
+    return out
+
+
 def closure(prog, quals):
     g = prog.call_graph()
     seen, stack = set(), list(quals)
@@ -117,6 +292,16 @@ def closure(prog, quals):
         stack.extend(g.get(q, ()))
     byq = {f.qualname: f for f in prog.all_functions()}
     return [byq[q] for q in sorted(seen) if q in byq]
+
+
+def _key_dump(expr, fn):
+    """Canonical text of a key expression with one level of local aliasing resolved."""
+    if isinstance(expr, ast.Name) and expr.id not in fn.params:
+        defs = [n for n in ast.walk(fn.node) if isinstance(n, ast.Assign) and len(n.targets) == 1
+                and isinstance(n.targets[0], ast.Name) and n.targets[0].id == expr.id]
+        if len(defs) == 1:
+            return _key_dump(defs[0].value, fn)
+    return ast.dump(expr)
 
 
 def _key_names(expr, fn):
@@ -165,16 +350,34 @@ def check(ck, prog, quals, rule, note=''):
             if isinstance(node, ast.Attribute) and isinstance(node.value, ast.Name) \
                     and node.value.id == fn.name and fn.cls is None:
                 by_global.setdefault(fn.name + '.' + node.attr, []).append(node)
+        # a mutable default argument that the function updates is the same kind of state: the
+        # default object is created once, at definition time, and shared by every call
+        memo_params = mutated_default_params(fn)
+        for pname in memo_params:
+            for node in ast.walk(fn.node):
+                if isinstance(node, ast.Name) and isinstance(node.ctx, ast.Load) and \
+                        node.id == pname:
+                    by_global.setdefault(pname, []).append(node)
         for gname, nodes in sorted(by_global.items()):
             n_reads += len(nodes)
-            params = set(p for p in fn.params if p != 'self')
+            params = set(p for p in fn.params if p != 'self' and p not in memo_params)
             memo_ok = True
             why = ''
+            deps = None
+            key_dump = None
             for node in nodes:
                 par = pm.get(node)
                 key = None
+                values = []          # expressions stored under the key by this access
                 if isinstance(par, ast.Subscript) and par.value is node:
                     key = par.slice
+                    if isinstance(par.ctx, ast.Store):
+                        asg = pm.get(par)
+                        if isinstance(asg, ast.Assign) and par in asg.targets:
+                            values.append(asg.value)
+                        else:
+                            memo_ok, why = False, 'stored through %s' % ast.unparse(asg)[:50]
+                            break
                 elif isinstance(par, ast.Compare) and node in par.comparators \
                         and isinstance(par.ops[0], (ast.In, ast.NotIn)):
                     key = par.left
@@ -182,19 +385,53 @@ def check(ck, prog, quals, rule, note=''):
                         'get', 'setdefault', 'pop') and isinstance(pm.get(par), ast.Call):
                     call = pm[par]
                     key = call.args[0] if call.args else None
+                    values += list(call.args[1:2])      # default / value to store
+                elif (isinstance(par, ast.Call) and isinstance(par.func, ast.Name) and
+                      par.func.id == 'len' and node in par.args) or \
+                        (isinstance(par, ast.Attribute) and par.value is node and
+                         par.attr == 'clear'):
+                    continue      # size test / eviction of the whole table: no effect on results
                 else:
                     memo_ok, why = False, 'used as %s' % ast.unparse(par)[:50]
                     break
                 names, simple = _key_names(key, fn) if key is not None else (set(), False)
-                if not simple or names != params:
+                if not simple:
                     memo_ok = False
-                    why = ('indexed by %s, which is not a key made of all parameters %s'
-                           % (ast.unparse(key) if key is not None else '?', sorted(params)))
+                    why = ('indexed by %s, which is not a key made of parameters'
+                           % (ast.unparse(key) if key is not None else '?'))
                     break
+                kd = _key_dump(key, fn)
+                if key_dump is None:
+                    key_dump = kd
+                elif kd != key_dump:
+                    memo_ok, why = False, 'indexed by different keys (%s)' % ast.unparse(key)
+                    break
+                if names == params:
+                    continue         # keyed by every parameter: a hit returns what a miss computes
+                # keyed by some of the parameters: sound when what is stored depends on those only
+                if deps is None:
+                    deps = param_deps(fn)
+                for v in values:
+                    extra = (expr_deps(v, deps) & set(fn.params)) - names - memo_params
+                    if extra:
+                        memo_ok = False
+                        why = ('indexed by %s but the stored value %s also depends on %s'
+                               % (ast.unparse(key), ast.unparse(v)[:40], sorted(extra)))
+                        break
+                if not memo_ok:
+                    break
+            if memo_ok and gname in memo_params:
+                if not hasattr(prog, 'sound_memos'):
+                    prog.sound_memos = set()
+                prog.sound_memos.add((fn.qualname, gname))
             ck.ob(rule, '%s::state:%s' % (fn.qualname, gname), memo_ok,
-                  '%s reads module-level mutable state %s (%s; %s): its result can depend on '
+                  '%s reads %s %s (%s; %s): its result can depend on '
                   'earlier calls, not only on its arguments%s' % (
-                      fn.qualname, gname, mg.get(gname, 'function attribute'), why,
+                      fn.qualname,
+                      'its own default-argument object' if gname in memo_params
+                      else 'module-level mutable state', gname,
+                      'created once at definition and updated by the calls'
+                      if gname in memo_params else mg.get(gname, 'function attribute'), why,
                       (' - ' + note) if note else ''),
                   fn.loc(nodes[0]), key='%s::state:%s' % (fn.qualname, gname))
     ck.ob(rule, 'result-is-a-function-of-arguments[%d functions]' % len(fns), True)
